@@ -31,7 +31,7 @@ def _map_param(f: FuncInfo) -> str:
     return ps[0]
 
 
-def rule_simul(repo: Repo) -> RuleResult:
+def rule_simul(repo: Repo, floor: int = 3) -> RuleResult:
     r = RuleResult("C18.simul", "the renamed signature is built from a snapshot, not by pop/insert in place inside one loop",
                    "any injective map, including maps whose new names overlap the old ones")
     for spec in SITES:
@@ -64,7 +64,7 @@ def rule_simul(repo: Repo) -> RuleResult:
                            f"names overlap the old ones (e.g. a swap) a just-inserted key is popped again and parameters are lost", node=st))
         else:
             r.ok({"function": f.qn, "in_place_pop_insert_loop": False})
-    r.require_sites(3)
+    r.require_sites(floor)
     return r
 
 
